@@ -138,6 +138,36 @@ package freelist
 //@   loop 0 invariant [safe] forall p common.Pgid, a int :: gfree[ifaceref(t.Interface)][p] && !old(gfree[ifaceref(t.Interface)][p]) && 0 <= a && a < len(t.readonlyTXIDs) ==> !(galloc(p) <= t.readonlyTXIDs[a] && t.readonlyTXIDs[a] < gpend(p))
 //@   loop 0 invariant [freekept] forall p common.Pgid :: old(gfree[ifaceref(t.Interface)][p]) ==> gfree[ifaceref(t.Interface)][p]
 
+// Rollback(txid) undoes the Free calls of txid: its pages leave the cache, the allocation record of every
+// page whose allocating transaction is known is restored, the pending entry disappears, and the allocation
+// records made by txid itself are dropped.
+//@ func (*shared).Rollback
+//@   props C09 C08
+//@   requires t.pending != nil && t.cache != nil && t.allocs != nil
+//@   requires has(t.pending, txid) ==> reptxp(t.pending[txid], txid)
+//@   panics when has(t.pending, txid) && (exists k int :: 0 <= k && k < len(t.pending[txid].ids) && t.pending[txid].alloctx[k] == txid)
+//@   ensures [nopend] !has(t.pending, txid)
+//@   ensures [otherpend] forall tid common.Txid :: tid != txid ==> has(t.pending, tid) == old(has(t.pending, tid)) && t.pending[tid] == old(t.pending[tid])
+//@   ensures [uncached] old(has(t.pending, txid)) ==> forall k int :: 0 <= k && k < old(len(t.pending[txid].ids)) ==> !has(t.cache, old(t.pending[txid].ids[k]))
+//@   ensures [cachekept] forall p common.Pgid :: has(t.cache, p) ==> old(has(t.cache, p))
+//@   ensures [cacheothers] forall p common.Pgid :: old(has(t.cache, p)) && !(old(has(t.pending, txid)) && old(inids(t.pending[txid].ids, p))) ==> has(t.cache, p)
+//@   ensures [restored] old(has(t.pending, txid)) ==> forall k int :: 0 <= k && k < old(len(t.pending[txid].ids)) && old(t.pending[txid].alloctx[k]) != 0 ==> has(t.allocs, old(t.pending[txid].ids[k])) && t.allocs[old(t.pending[txid].ids[k])] == old(t.pending[txid].alloctx[k])
+//@   ensures [noself] old(has(t.pending, txid)) ==> forall p common.Pgid :: has(t.allocs, p) ==> t.allocs[p] != txid
+//@   ensures [allocskept] forall p common.Pgid :: old(has(t.allocs, p)) && old(t.allocs[p]) != txid && !(old(has(t.pending, txid)) && old(inids(t.pending[txid].ids, p))) ==> has(t.allocs, p) && t.allocs[p] == old(t.allocs[p])
+//@   ensures [noabsent] !old(has(t.pending, txid)) ==> sameheap("shared.cache") && (forall p common.Pgid :: has(t.cache, p) == old(has(t.cache, p))) && (forall p common.Pgid :: has(t.allocs, p) == old(has(t.allocs, p)))
+//@   modifies mapof(t.pending), mapof(t.cache), mapof(t.allocs)
+//@   loop 0 invariant [idx] rangeindex < len(txp.ids) && txp == old(t.pending[txid]) && old(has(t.pending, txid)) && has(t.pending, txid) && t.pending[txid] == txp
+//@   loop 0 invariant [noself] forall k int :: 0 <= k && k <= rangeindex ==> txp.alloctx[k] != txid
+//@   loop 0 invariant [uncached] forall k int :: 0 <= k && k <= rangeindex ==> !has(t.cache, txp.ids[k])
+//@   loop 0 invariant [cachekept] forall p common.Pgid :: has(t.cache, p) ==> old(has(t.cache, p))
+//@   loop 0 invariant [cacheothers] forall p common.Pgid :: old(has(t.cache, p)) && !inids(txp.ids, p) ==> has(t.cache, p)
+//@   loop 0 invariant [restored] forall k int :: 0 <= k && k <= rangeindex && txp.alloctx[k] != 0 ==> has(t.allocs, txp.ids[k]) && t.allocs[txp.ids[k]] == txp.alloctx[k]
+//@   loop 0 invariant [allocskept] forall p common.Pgid :: old(has(t.allocs, p)) && !inids(txp.ids, p) ==> has(t.allocs, p) && t.allocs[p] == old(t.allocs[p])
+//@   loop 0 invariant [pend] forall tid common.Txid :: has(t.pending, tid) == old(has(t.pending, tid)) && t.pending[tid] == old(t.pending[tid])
+//@   loop 1 invariant [restored] forall k int :: 0 <= k && k < len(txp.ids) && txp.alloctx[k] != 0 ==> has(t.allocs, txp.ids[k]) && t.allocs[txp.ids[k]] == txp.alloctx[k]
+//@   loop 1 invariant [allocskept] forall p common.Pgid :: old(has(t.allocs, p)) && old(t.allocs[p]) != txid && !inids(txp.ids, p) ==> has(t.allocs, p) && t.allocs[p] == old(t.allocs[p])
+//@   loop 1 invariant [progress] forall p common.Pgid :: visited(p) && has(t.allocs, p) ==> t.allocs[p] != txid
+
 //@ func (*shared).Free
 //@   props C09 C06 C07 C01
 //@   requires t.pending != nil && t.cache != nil && t.allocs != nil
